@@ -306,6 +306,21 @@ example :
     (runClient { payload := [], szx0 := 6, maxPayload := 1124 }
       [⟨69, none, some ⟨0, true, 0⟩, some [9], List.range 15⟩]).2 = .error .unexpectedBlock2 := by
   decide
+/-- `Misbehaves` is inhabited on a reachable state: at the start of a 40-byte upload at szx 0 an
+acknowledgement for block 1 instead of block 0 is a wrong number; the run ends in the error -/
+example :
+    Misbehaves { payload := List.range 40, szx0 := 0, maxPayload := 1124 }
+      (phaseAfter { payload := List.range 40, szx0 := 0, maxPayload := 1124 }
+        (start { payload := List.range 40, szx0 := 0, maxPayload := 1124 }) [])
+      ⟨95, some ⟨1, true, 0⟩, none, none, []⟩ := by
+  have h : start { payload := List.range 40, szx0 := 0, maxPayload := 1124 }
+      = .b1 ⟨0, 0⟩ ⟨some ⟨0, true, 0⟩, none, some 40, List.range 16⟩ := by decide
+  simp only [phaseAfter, List.foldl_nil, h]
+  exact .wrongNumber rfl (by decide)
+example :
+    (runClient { payload := List.range 40, szx0 := 0, maxPayload := 1124 }
+      [⟨95, some ⟨1, true, 0⟩, none, none, []⟩]).2 = .error .unexpectedBlock1 := by decide
+
 /-- a Block1 option in the answer to an unfragmented request: size hint in a 4.13 is passed on,
 a more flag is an error (the code path fixed in aiocoap) -/
 example :
